@@ -389,6 +389,22 @@ def run_case(case, ctx):
                     if not _compare(ctx, 'shared_step_generator', q, k, got, extra=dict(ops=case['ops'])):
                         return
                     last_point[q], last_result[q] = k, got
+                # ... and a third object on the same generator instance: configuration i with another order (same method and
+                # n: whatever the generator remembers per (method, n) must not be served to a different order)
+                other = [o for o in (1, 2, 3, 4, 6, 8) if o != pool[i]['order']][(i + len(case['ops'])) % 5]
+                acfg = dict(pool[i], order=other)
+                akey = ('share_alt', i, other)
+                if akey not in _S['refs']:
+                    _S['refs'][akey] = fresh_reference(acfg, 0)
+                    ctx.count('fresh_interpreter_references')
+                got = call(build(nd, acfg, gen), acfg['points'][0])
+                ctx.count('shared_generator_calls')
+                ctx.count('history_calls_compared')
+                if got != _S['refs'][akey]:
+                    ctx.reject('result_differs_from_fresh_interpreter_evaluation', observed=got, expected=_S['refs'][akey],
+                               detail=dict(where='shared_step_generator_other_order', config=acfg, extra=dict(ops=case['ops'])),
+                               where='shared_step_generator_other_order')
+                    return
             elif name == 'raise_midway':
                 # another object of the same configuration whose function fails after a few evaluations: whatever the
                 # aborted call left behind (module-level work arrays, caches, generator state) must not reach later calls
